@@ -37,6 +37,7 @@ def meta(tier):
                    'minimum_tp_rts_cts_dt_interval in {None, 1, 10, 50 ms}; minimum_tp_bam_dt_interval in {default, 10, 50, 100, 190 ms}; spacing claims over symbolic instants (scheduling latency symbolic 10 us..2 ms)',
                    'J1939-22: see the tpref22 jobs'],
         'outside': ['the gap between the last packet of one CTS window and the first packet after the next CTS (governed by the peer\'s clearance, not by the configured interval: observation O-C09-1 in DESIGN)',
-                    'peer reactions faster than 2.5 ms'],
+                    'peer reactions faster than 2.5 ms',
+                    'retransmission requests on J1939-21 (the originator ignores the next-packet field of a CTS and continues from its own position: observation O-C09-2 in DESIGN); on J1939-22 they are covered (rewind jobs)'],
         'assumptions': ['reference peer jv/props/tpref.py'],
     }
